@@ -93,15 +93,17 @@ var cnames = [nCnt]string{metadata.LeafCount, metadata.AddCount, metadata.DelCou
 
 type cnt [nCnt]int64
 
+var cshort = [nCnt]string{"leaves", "added", "deleted", "empty", "updated", "suppressed", "stale", "future"}
+
 func (c cnt) String() string {
 	var b strings.Builder
-	for i, n := range cnames {
+	for i, n := range cshort {
 		if i > 0 {
 			b.WriteString(" ")
 		}
-		fmt.Fprintf(&b, "%s=%d", strings.TrimPrefix(n, "targetLeaves"), c[i])
+		fmt.Fprintf(&b, "%s=%d", n, c[i])
 	}
-	return strings.Replace(b.String(), " =", " leaves=", 1)
+	return b.String()
 }
 
 func (c cnt) sub(o cnt) (d cnt) {
